@@ -190,7 +190,7 @@ func (g *gen) genError(typs []types.Type) error {
 	zeros := make([]string, len(results[len(results)-1]))
 	vars[len(vars)-1] = make([]string, len(results[len(results)-1]))
 	for i, r := range results[len(results)-1] {
-		zeros[i] = derive.Zero(r)
+		zeros[i] = derive.ZeroOf(r, g.TypeString(r))
 		vars[len(vars)-1][i] = "v_" + strconv.Itoa(len(vars)-1) + "_" + strconv.Itoa(i)
 	}
 	resFuncType := fmt.Sprintf("func(%s) %s", strings.Join(paramStrs[0], ", "), wrap(strings.Join(resultStrs[len(resultStrs)-1], ", ")))
